@@ -2444,3 +2444,103 @@ Proof.
     rewrite Dks. exists (k0 :: ks). split; [reflexivity|].
     econstructor; [exact Mk|]. replace (p + (ops_len o + ops_len ro)) with (p + ops_len o + ops_len ro) by lia. exact Mks.
 Qed.
+
+Theorem decode_written dbg cx f tab : forall d, dec_stmt dbg cx f tab d.
+Proof.
+  induction d as [id tag sib attrs ch IH] using die_ind2.
+  intros fuel pos ops rest HW C D Hf B U F.
+  assert (RW := write_die_refw _ _ _ _ _ HW).
+  rewrite codes_ok_unfold in C. destruct C as [[code [ab [C1 [C2 C3]]]] Cl].
+  rewrite die_decodable_unfold in D. destruct D as [Da Dc].
+  rewrite write_die_unfold in HW.
+  apply bind_ok_inv in HW. destruct HW as [u0 [_ HW]].
+  apply bind_ok_inv in HW. destruct HW as [code' [Ec HW]].
+  unfold idx_get, unwrap in Ec. rewrite C1 in Ec. injection Ec as <-.
+  apply bind_ok_inv in HW. destruct HW as [cb [Ecb HW]]. cbv zeta in HW.
+  apply bind_ok_inv in HW. destruct HW as [aops [Ea HW]].
+  assert (Lcb : 1 <= UnitWr.blen cb).
+  { destruct (uleb_first_byte _ _ Ecb (abbrev_lookup_nonzero _ _ _ C3)) as [b [r [-> _]]]. rewrite blen_cons. lia. }
+  (* the abbreviation of this entry *)
+  unfold die_abbrev in C2.
+  apply bind_ok_inv in C2. destruct C2 as [sibspec [Esib C2]].
+  apply bind_ok_inv in C2. destruct C2 as [specs [Especs C2]]. injection C2 as <-.
+  (* the attribute values *)
+  assert (Hattrs : forall tail, decode_attrs (wc_enc cx) (wc_be cx) specs (ops_resolved f aops ++ tail) =
+                                Some (map (attr_sem cx f) attrs, tail)).
+  { intros tail. eapply decode_attrs_written; eassumption. }
+  assert (Laops : UnitWr.blen (ops_resolved f aops) = ops_len aops).
+  { apply (ops_resolved_len f (wsz (wc_enc cx))); [exact Hf|].
+    intros i w' Hi. apply (RW i w'). destruct ch.
+    - injection HW as <-. right. right. exact Hi.
+    - apply bind_ok_inv in HW. destruct HW as [cops [_ HW]]. apply bind_ok_inv in HW. destruct HW as [sibb [_ HW]].
+      injection HW as <-. right. right. apply in_or_app. right. apply in_or_app. now left. }
+  destruct ch as [|c r].
+  - (* leaf *)
+    injection HW as <-. cbn [has_kids] in Esib. rewrite andb_false_r in Esib. injection Esib as <-.
+    rewrite !ops_len_cons in *. cbn [op_bytes] in *. rewrite blen_nil in *.
+    destruct fuel as [|f']; [lia|].
+    rewrite !ops_resolved_cons. cbn [op_resolved op_bytes app]. rewrite <- app_assoc.
+    cbn [decode_die]. rewrite (write_uleb128_dec _ _ (ops_resolved f aops ++ rest) Ecb).
+    rewrite C3. cbn [ab_attrs ab_children ab_tag app has_kids]. rewrite Hattrs.
+    eexists. split; [reflexivity|]. constructor.
+  - (* node *)
+    apply bind_ok_inv in HW. destruct HW as [cops [Ecops HW]].
+    apply bind_ok_inv in HW. destruct HW as [sibb [Esibb HW]]. injection HW as <-.
+    cbn [has_kids] in *. rewrite andb_true_r in *.
+    set (w := wsz (wc_enc cx)) in *.
+    (* widths *)
+    assert (Hs : ops_len sibb = (if sib then w else 0) /\ forallb (fun o => negb (is_unit_ref o)) sibb = true).
+    { destruct sib.
+      - binds. injection Esibb as <-. rewrite ops_len_wb.
+        match goal with E : write_udata _ _ _ = Ok _ |- _ => rewrite (write_udata_len _ _ _ _ E) end. split; reflexivity.
+      - injection Esibb as <-. split; reflexivity. }
+    destruct Hs as [Ls Ps].
+    rewrite !ops_len_cons, !ops_len_app, ops_len_wb in *. cbn [op_bytes] in *. rewrite blen_nil, Ls in *.
+    change (UnitWr.blen [x00]) with 1 in *.
+    destruct fuel as [|f']; [lia|].
+    rewrite !ops_resolved_cons, !ops_resolved_app. cbn [op_resolved op_bytes app].
+    rewrite (ops_resolved_noref f sibb Ps).
+    replace (ops_resolved f [WB [x00]]) with [x00] by reflexivity.
+    set (p0 := pos + (UnitWr.blen cb + (if sib then w else 0)) + ops_len aops) in *.
+    set (endp := pos + (0 + (UnitWr.blen cb + ((if sib then w else 0) + (ops_len aops + (ops_len cops + 1)))))).
+    (* children *)
+    destruct (decode_kids_written dbg cx f tab (c :: r) IH f' f' p0 cops rest Ecops Cl Dc Hf) as [kids [Dk Mk]].
+    { unfold p0. lia. } { unfold p0. lia. } { lia. }
+    { assert (Cn := write_list_count dbg cx f tab _ _ _ Ecops Cl). lia. }
+    (* the sibling attribute and the other attributes *)
+    assert (Hall : decode_attrs (wc_enc cx) (wc_be cx) (sibspec ++ specs)
+                     (ops_bytes sibb ++ ops_resolved f aops ++ ops_resolved f cops ++ x00 :: rest) =
+                   Some ((if sib then [(DW_AT_sibling, word_form (wc_enc cx) DW_FORM_ref4 DW_FORM_ref8, RU (endp - wc_unit_off cx))]
+                          else []) ++ map (attr_sem cx f) attrs,
+                         ops_resolved f cops ++ x00 :: rest)).
+    { destruct sib.
+      - apply bind_ok_inv in Esib. destruct Esib as [s [Es Esib]]. injection Esib as <-.
+        destruct (aspec_new_ok _ _ _ _ _ Es) as [A1 [A2 A3]].
+        apply bind_ok_inv in Esibb. destruct Esibb as [next [En Esibb]].
+        apply bind_ok_inv in Esibb. destruct Esibb as [b [Eb Esibb]]. injection Esibb as <-.
+        assert (Enext : next = endp - wc_unit_off cx).
+        { rewrite chk_sub_ok in En by (unfold p0 in *; lia). injection En as <-. unfold endp, p0. f_equal. lia. }
+        unfold ops_bytes. cbn [flat_map op_bytes app]. rewrite app_nil_r.
+        cbn [decode_attrs]. rewrite A1, A2, A3.
+        assert (FD : form_decode (wc_enc cx) (wc_be cx) (word_form (wc_enc cx) DW_FORM_ref4 DW_FORM_ref8) 0
+                       (b ++ ops_resolved f aops ++ ops_resolved f cops ++ x00 :: rest) =
+                     Some (RU (next mod 2 ^ 64), ops_resolved f aops ++ ops_resolved f cops ++ x00 :: rest)).
+        { unfold word_form. unfold w, wsz in Eb. destruct (e_fmt64 (wc_enc cx)); [rewrite fd_ref8|rewrite fd_ref4];
+            eapply write_udata_dec; eassumption. }
+        rewrite FD, Hattrs. rewrite N.mod_small by (subst next; unfold endp; lia). now rewrite Enext.
+      - injection Esib as <-. injection Esibb as <-. cbn [app ops_bytes flat_map]. apply Hattrs. }
+    cbn [decode_die]. rewrite <- !app_assoc.
+    rewrite (write_uleb128_dec _ _ _ Ecb). rewrite C3. cbn [ab_attrs ab_children ab_tag has_kids].
+    cbn [app]. rewrite Hall.
+    (* position of the first child *)
+    assert (Epos : pos + (UnitWrSpec.blen (cb ++ ops_bytes sibb ++ ops_resolved f aops ++ ops_resolved f cops ++ x00 :: rest) -
+                          UnitWrSpec.blen (ops_resolved f cops ++ x00 :: rest)) = p0).
+    { change UnitWrSpec.blen with UnitWr.blen. rewrite !blen_app, Laops. fold (ops_len sibb). rewrite Ls. unfold p0. lia. }
+    rewrite Epos, Dk.
+    eexists. split; [reflexivity|].
+    replace (pos + (0 + (UnitWr.blen cb + ((if sib then w else 0) + (ops_len aops + (ops_len cops + 1)))))) with endp by reflexivity.
+    apply DMnode with (p0 := p0).
+    + replace (endp - 1) with (p0 + ops_len cops) by (unfold endp, p0; lia). exact Mk.
+    + unfold p0. lia.
+    + unfold endp, p0. lia.
+Qed.
